@@ -188,6 +188,9 @@ BufrValue  *bufr_create_value( ValueType type )
          break;
       }
 
+#ifdef LIBECBUFR_VERIF
+   bufr_verif_live[BUFR_VK_VALUE]++;
+#endif
    return bv;
    }
 
@@ -249,6 +252,9 @@ void bufr_free_value( BufrValue *bv )
       bv->af = NULL;
       }
 
+#ifdef LIBECBUFR_VERIF
+   bufr_verif_live[BUFR_VK_VALUE]--;
+#endif
    switch( bv->type )
       {
       case VALTYPE_INT8 :
